@@ -24,7 +24,10 @@ META = {
         'run INSIDE stored programs on targets that still point into the program text (a quoted literal assigned in a '
         'program line, a copy C$=A$ of such a variable, an array element, a second in-place statement on the same '
         'target); the copy must not change the original, and the program is run twice (the literal in the program text '
-        'must not be modified).'),
+        'must not be modified). A further share runs every function and statement with operands that are expressions '
+        'of several temporaries (LEFT$(A$,k)+MID$(A$,k+1), A$+"") in a string space of 1.3-2.4 kB (CLEAR ,n) with a '
+        'filler of random size, so that collections happen inside the functions between operand evaluations (observed: '
+        'gc_during_statement_seen); Out of string space is accepted there, any other deviation is not.'),
     'level_note': (
         'Trusted: the harness, Python bytes slicing. Edges the statement does not pin are either not generated or '
         'accept the plausible set: STRING$(n,"") is not generated; a numeric argument outside -32768..32767 must give '
@@ -41,7 +44,8 @@ META = {
     'assumptions': ['GW-BASIC manual definitions as transcribed in vf/models/c09_rstr.py',
                     'set_variable/get_variable move string bytes unchanged (C43)'],
     'require_counters': {'any': ['ifc_seen', 'string_too_long_seen', 'overlap_effective_seen', 'len255_operand_seen',
-                                 'program_text_target_cases', 'second_inplace_on_same_target_cases']},
+                                 'program_text_target_cases', 'second_inplace_on_same_target_cases',
+                                 'gc_during_statement_seen', 'pressure_statements_compared']},
     'timeout': {'quick': 900, 'thorough': 7200},
 }
 
@@ -60,9 +64,13 @@ def plan(tier, seed):
     if tier == 'quick':
         for i in range(10):
             shards.append({'kind': 'random', 'n': 3000, 'part': i})
+        for i in range(4):
+            shards.append({'kind': 'pressure', 'n': 2000, 'part': i})
     else:
         for i in range(32):
             shards.append({'kind': 'random', 'n': 21500, 'part': i})
+        for i in range(12):
+            shards.append({'kind': 'pressure', 'n': 14000, 'part': i})
     return shards
 
 
@@ -88,6 +96,10 @@ def _str_src(form, var, value):
     """Source text of a string operand: variable, temporary expression or literal."""
     if form == 'temp' and len(value) <= 255:
         return b'(' + var + b'$+"")'
+    if form == 'tcat':
+        # same value, built from two temporaries and a concatenation (three allocations)
+        k = len(value) // 2
+        return b'(LEFT$(%s$,%d)+MID$(%s$,%d))' % (var, k, var, k + 1)
     if form == 'lit':
         return b'"' + value + b'"'
     return var + b'$'
@@ -216,18 +228,30 @@ def build(op, a, b, t, nums, forms, program=False, element=False):
 
 class Runner(object):
 
-    def __init__(self, res):
+    def __init__(self, res, pressure=None):
         from .. import harness
         self.h = harness
         self.res = res
         self.box = None
         self.calls = 0
         self.sentinel = 0
+        self.pressure = pressure       # random.Random: run in a nearly full string space
+        self.minv = None
+        if pressure is not None:
+            from ..models import c10_minv
+            self.minv = c10_minv
+            c10_minv.install()
 
     def _box(self):
         if self.box is None or self.calls % 3000 == 0:
             self.close()
             self.box = self.h.Box()
+            if self.pressure is not None:
+                # leave about 1.5 kB for variables and strings: every statement or two collects
+                box = self.box
+                total = int(box.ev(b'PEEK(&H2C)+256*PEEK(&H2D)'))
+                free = int(box.ev(b'FRE("")'))
+                box.ex(b'CLEAR ,%d' % (total - (free - self.pressure.choice((1300, 1500, 1800, 2400)))))
             self.box.ex(b'DIM T$(3)')
         return self.box
 
@@ -248,6 +272,7 @@ class Runner(object):
             res.count('len255_operand_seen')
         casej = {'op': c.op, 'stmt': c.stmt, 'A$': c.a, 'B$': c.b, 'T$': c.t, 'nums': list(c.nums),
                  'program': c.program, 'element': c.element}
+        gc0 = self.minv.STATE.gc_count if self.minv else 0
         try:
             if c.program:
                 # stored line reached by GOTO (storing a line clears the variables: plant afterwards)
@@ -268,8 +293,26 @@ class Runner(object):
                 box.set('T$', c.t)
                 if c.element:
                     box.ex(b'T$(2)=T$:T$(1)="guard1":T$(3)="guard3"')
+            if self.pressure is not None:
+                # burn the free space down to a random small rest with garbage (G$ reassigned): the next
+                # collection then happens INSIDE the statement, at a random one of its allocations
+                rest = self.pressure.randint(0, 2 * (len(c.a) + len(c.b)) + len(c.t) + 8)
+                for _ in range(12):
+                    free = int(box.ev(b'FRE(0)'))
+                    if free <= rest + 1:
+                        break
+                    box.set('G$', b'g' * min(255, free - rest - 1))
+                box.set('G$', b'')
+            gc1 = self.minv.STATE.gc_count if self.minv else 0
             out = box.ex(b'GOTO 10' if c.program else c.stmt)
             code, _ = h.err_of(out)
+            if self.minv is not None:
+                res.count('pressure_statements')
+                if self.minv.STATE.gc_count > gc1:
+                    res.count('gc_during_statement_seen')
+                for k_, w_ in self.minv.drain():
+                    if not k_.startswith('note:'):
+                        res.violation(k_, '%s (statement %r)' % (w_, c.stmt), casej)
             # observed
             if c.result_var == 'cmp':
                 val = [box.get('C%d%%' % i) for i in range(6)]
@@ -285,6 +328,10 @@ class Runner(object):
                 else:
                     val = box.get('T$')
             a_after, b_after = box.get('A$'), box.get('B$')
+        except h.error.BASICError as e:
+            # only set_variable raises this: the planted operands did not fit (pressure mode)
+            res.count('pressure_plant_failed_error_%d' % e.err)
+            return
         except h.Internal as e:
             res.violation(e.key, '%s while executing %r (A$ %d bytes, B$ %d bytes)' % (e, c.stmt, len(c.a), len(c.b)), casej)
             # the session may be left inconsistent: start a new one
@@ -292,6 +339,14 @@ class Runner(object):
             self.calls = 1
             return
         got = ('err', code) if code else ('ok', val)
+        sfx = ''
+        if self.pressure is not None:
+            sfx = ':temporary-operands-under-memory-pressure'
+            if code == 14:
+                # Out of string space is a legitimate outcome here (the statement says nothing about memory)
+                res.count('pressure_out_of_string_space_seen')
+                return
+            res.count('pressure_statements_compared')
         if code == 5:
             res.count('ifc_seen')
         elif code == 15:
@@ -316,23 +371,23 @@ class Runner(object):
                               '%r -> %r; expected a BASIC error' % (c.stmt, got), casej)
             elif got[0] == 'ok' and exp[0] == 'ok':
                 if c.target_var is not None and len(got[1]) != len(c.t):
-                    res.violation('%s:target-length-changed' % c.op,
+                    res.violation('%s:target-length-changed' % c.op + sfx,
                                   '%r: target length %d -> %d' % (c.stmt, len(c.t), len(got[1])), casej)
                 else:
-                    res.violation('%s:value' % c.op, '%r with A$=%r B$=%r T$=%r -> %r, reference %r' % (
+                    res.violation('%s:value' % c.op + sfx, '%r with A$=%r B$=%r T$=%r -> %r, reference %r' % (
                         c.stmt, c.a[:40], c.b[:40], c.t[:40], got[1] if not isinstance(got[1], bytes) else got[1][:60],
                         exp[1] if not isinstance(exp[1], bytes) else exp[1][:60]), casej)
             else:
-                res.violation('%s:error-class' % c.op, '%r with LEN(A$)=%d LEN(B$)=%d LEN(T$)=%d -> %r, reference %r' % (
+                res.violation('%s:error-class' % c.op + sfx, '%r with LEN(A$)=%d LEN(B$)=%d LEN(T$)=%d -> %r, reference %r' % (
                     c.stmt, len(c.a), len(c.b), len(c.t), (got if got[0] == 'err' else 'no error'),
                     (exp if exp[0] != 'ok' else 'no error')), casej)
         # an in-place statement that fails must leave its target alone
         if code and c.target_var is not None and val != c.t:
-            res.violation('%s:target-changed-by-failing-statement' % c.op,
+            res.violation('%s:target-changed-by-failing-statement' % c.op + sfx,
                           '%r failed with error %d but the target changed to %r' % (c.stmt, code, val[:60]), casej)
         # frame: source operands are never modified
         if a_after != c.a or b_after != c.b:
-            res.violation('%s:source-operand-changed' % c.op,
+            res.violation('%s:source-operand-changed' % c.op + sfx,
                           '%r changed a source operand (A$ %r->%r, B$ %r->%r)' % (
                               c.stmt, c.a[:30], a_after[:30], c.b[:30], b_after[:30]), casej)
 
@@ -586,14 +641,14 @@ def directed_cases():
     return out
 
 
-def rand_string(rng, near=None):
+def rand_string(rng, near=None, maxlen=255):
     r = rng.random()
     if r < 0.12:
-        n = rng.choice((0, 1, 2, 254, 255))
+        n = rng.choice((0, 1, 2, maxlen - 1, maxlen))
     elif r < 0.55:
         n = rng.randint(0, 12)
     else:
-        n = rng.randint(0, 255)
+        n = rng.randint(0, maxlen)
     r = rng.random()
     if r < 0.45:
         alpha = b'ab'
@@ -625,9 +680,15 @@ def rand_num(rng, ln, allow_huge=True, allow_frac=True):
     return rng.randint(0, 255)
 
 
-def rand_case(rng):
-    op = rng.choice(FUNC_OPS + STMT_OPS + ['midself2', 'midself3', 'instr3', 'mid3'])
-    a = rand_string(rng)
+def rand_case(rng, pressure=False):
+    """pressure: operands are expressions made of several temporaries, strings short enough that the
+    statement fits a string space of about 1.5 kB (collections then happen INSIDE the functions)."""
+    ops = FUNC_OPS + STMT_OPS + ['midself2', 'midself3', 'instr3', 'mid3']
+    if pressure:
+        ops = ops + ['instr2', 'instr3', 'instr2', 'concat', 'cmp', 'midstmt3', 'lset', 'rset', 'string_char', 'mid3', 'left']
+    op = rng.choice(ops)
+    maxlen = 80 if pressure else 255
+    a = rand_string(rng, maxlen=maxlen)
     r = rng.random()
     if r < 0.35 and a:
         # needle / comparand related to a: substring, prefix, or a with one byte changed
@@ -642,8 +703,8 @@ def rand_case(rng):
     elif r < 0.45:
         b = a
     else:
-        b = rand_string(rng)
-    t = rand_string(rng)
+        b = rand_string(rng, maxlen=maxlen)
+    t = rand_string(rng, maxlen=maxlen)
     forms = {}
     for k in ('n0', 'n1'):
         forms[k] = rng.choice(('ivar', 'ivar', 'lit', 'svar'))
@@ -651,6 +712,10 @@ def rand_case(rng):
     forms['b'] = rng.choice(('var', 'var', 'var', 'temp', 'lit'))
     element = rng.random() < 0.12
     program = rng.random() < 0.06
+    if pressure:
+        forms['a'] = rng.choice(('tcat', 'tcat', 'tcat', 'temp', 'var'))
+        forms['b'] = rng.choice(('tcat', 'tcat', 'tcat', 'temp', 'var'))
+        program = False
     if op in ('left', 'right', 'mid2', 'space', 'chr', 'instr3'):
         nums = (rand_num(rng, len(a)),)
     elif op == 'mid3':
@@ -676,9 +741,12 @@ def rand_case(rng):
 def run_shard(spec, res):
     kind = spec['kind']
     rng = random.Random('%s:C09:%s:%s' % (spec['seed'], kind, spec.get('part', 0)))
-    runner = Runner(res)
+    runner = Runner(res, pressure=(rng if kind == 'pressure' else None))
     try:
-        if kind == 'directed':
+        if kind == 'pressure':
+            for i in range(spec['n']):
+                runner.run(rand_case(rng, pressure=True), sample=(i < 1 and spec.get('part', 0) < 2))
+        elif kind == 'directed':
             cases = directed_cases()[spec['part']::spec['parts']]
             for i, c in enumerate(cases):
                 runner.run(c, sample=(i in (0, 500)))
